@@ -8,6 +8,11 @@
 //	subs     name:weight:backends;...        in sub-cluster list order (= sorted by name), backends = (u|d)(weight digit)... or -
 //	requests method:body:script;...          method G P H g ; body n e r s S ; script = attempt.attempt... or - ; attempt = <fwd><rt>
 //	         fwd: g goon, f Finish, r p c (ignored verdicts), x y z u = the callback REPLACES Trans.Backend by backend #0..#3
+//	         optional 4th / 5th field  :finish:pre
+//	           finish = verdicts of the HandleRequestFinish filters in chain order, chars g f r p c (verdicts) ! (the
+//	                    filter panics); '-' = every filter goes on
+//	           pre    = '-' or f c r : a HandleBeforeLocation filter ends the request with Finish / Close / Redirect;
+//	                    step i<k> then runs the REAL ServeHTTP (it returns before any backend is selected)
 //	schedule i<k> / f<k> steps joined by '.' (clusterInvoke of request k / FinishReq of request k)
 //
 // and it is run against the REAL bfe_server.clusterInvoke / FinishReq with a real bal_gslb.BalanceGslb,
@@ -59,7 +64,12 @@ type Req struct {
 	Method byte
 	Body   byte
 	Script []Attempt
+	Finish string // verdict chars of the HandleRequestFinish filters
+	Pre    byte   // '-', 'f', 'c', 'r'
 }
+
+const FinChars = "gfrpc!"
+const MaxFinFilters = 4
 
 type Step struct {
 	Fin bool
@@ -117,6 +127,19 @@ func (s *Scenario) String() string {
 			}
 			b.WriteByte(a.Fwd)
 			b.WriteByte(a.Rt)
+		}
+		if r.Finish != "" || (r.Pre != 0 && r.Pre != '-') {
+			b.WriteByte(':')
+			if r.Finish == "" {
+				b.WriteByte('-')
+			}
+			b.WriteString(r.Finish)
+			b.WriteByte(':')
+			if r.Pre == 0 {
+				b.WriteByte('-')
+			} else {
+				b.WriteByte(r.Pre)
+			}
 		}
 	}
 	b.WriteByte('/')
@@ -208,13 +231,30 @@ func Parse(op string) (*Scenario, bool) {
 	// requests
 	for _, f := range strings.Split(secs[2], ";") {
 		p := strings.Split(f, ":")
-		if len(p) != 3 || len(p[0]) != 1 || len(p[1]) != 1 {
+		if (len(p) != 3 && len(p) != 5) || len(p[0]) != 1 || len(p[1]) != 1 {
 			return nil, false
 		}
 		if !strings.Contains("GPHg", p[0]) || !strings.Contains("nersS", p[1]) {
 			return nil, false
 		}
-		r := Req{Method: p[0][0], Body: p[1][0]}
+		r := Req{Method: p[0][0], Body: p[1][0], Pre: '-'}
+		if len(p) == 5 {
+			if p[3] != "-" {
+				if len(p[3]) > MaxFinFilters {
+					return nil, false
+				}
+				for _, c := range p[3] {
+					if !strings.ContainsRune(FinChars, c) {
+						return nil, false
+					}
+				}
+				r.Finish = p[3]
+			}
+			if len(p[4]) != 1 || !strings.Contains("-fcr", p[4]) {
+				return nil, false
+			}
+			r.Pre = p[4][0]
+		}
 		if p[2] != "-" {
 			for _, a := range strings.Split(p[2], ".") {
 				if len(a) != 2 || !strings.Contains(FwdChars, a[:1]) || !strings.Contains(RtChars, a[1:]) {
@@ -273,6 +313,7 @@ type reqState struct {
 	dead    bool // clusterInvoke panicked: the serving goroutine is gone, FinishReq never runs
 	done    bool
 	events  []string
+	finRan  int    // HandleRequestFinish filters that ran
 	orig    string // label of the backend Balance returned, when the callback replaced it
 }
 
@@ -340,6 +381,12 @@ func (r *runner) forward(req *bfe_basic.Request) int {
 	}
 	return bfe_module.BfeHandlerGoOn
 }
+
+type fakeRW struct{ h bfe_http.Header }
+
+func (w *fakeRW) Header() bfe_http.Header     { return w.h }
+func (w *fakeRW) Write(b []byte) (int, error) { return len(b), nil }
+func (w *fakeRW) WriteHeader(int)             {}
 
 type fakeBody struct{ *strings.Reader }
 
@@ -507,6 +554,43 @@ func Exec(op string) string {
 		return "err:init"
 	}
 	r.env = env
+	verdict := func(c byte) int {
+		switch c {
+		case 'f':
+			return bfe_module.BfeHandlerFinish
+		case 'r':
+			return bfe_module.BfeHandlerRedirect
+		case 'p':
+			return bfe_module.BfeHandlerResponse
+		case 'c':
+			return bfe_module.BfeHandlerClose
+		}
+		return bfe_module.BfeHandlerGoOn
+	}
+	for i := 0; i < MaxFinFilters; i++ {
+		i := i
+		if err := env.AddFilter(bfe_module.HandleRequestFinish, func(req *bfe_basic.Request, res *bfe_http.Response) int {
+			c := r.cur
+			c.finRan++
+			if i < len(c.spec.Finish) {
+				if c.spec.Finish[i] == '!' {
+					panic("scripted panic in a HandleRequestFinish filter")
+				}
+				return verdict(c.spec.Finish[i])
+			}
+			return bfe_module.BfeHandlerGoOn
+		}); err != nil {
+			return "err:init"
+		}
+	}
+	if err := env.AddFilter(bfe_module.HandleBeforeLocation, func(req *bfe_basic.Request) (int, *bfe_http.Response) {
+		if r.cur.spec.Pre == 'r' {
+			req.Redirect.Url, req.Redirect.Code = "/moved", 302
+		}
+		return verdict(r.cur.spec.Pre), nil
+	}); err != nil {
+		return "err:init"
+	}
 	// health-check configuration: with FailNum > 0 the real OnFail/UpdateStatus marks backends down
 	// between attempts (the checker goroutine it starts can never succeed; Release stops it)
 	if sc.Fn > 0 {
@@ -555,6 +639,12 @@ func Exec(op string) string {
 			c.req = r.newRequest(c.spec)
 			r.cur = c
 			line := vh.Safe(func() string {
+				if c.spec.Pre != '-' {
+					// a HandleBeforeLocation module ends the request: the real ServeHTTP returns before clusterInvoke
+					c.req.Session = new(bfe_basic.Session)
+					action := env.ServeHTTP(&fakeRW{h: bfe_http.Header{}}, c.req)
+					return fmt.Sprintf(">res=nil,err=nil,act=%d", action)
+				}
 				res, action, err := env.ClusterInvoke(c.req)
 				rs := "nil"
 				if res != nil {
@@ -584,10 +674,12 @@ func Exec(op string) string {
 			}
 			r.cur = c
 			line := vh.Safe(func() string {
-				env.FinishReq(c.req)
-				return ""
+				return fmt.Sprintf("act=%d", env.FinishReq(c.req))
 			})
-			out = append(out, fmt.Sprintf("f%d:%scn=%s", st.K, line, r.conn()))
+			if strings.HasPrefix(line, "PANIC:scripted") {
+				line = "cbpanic" // conn.serve() recovers it; the deferred decrement of FinishReq has run
+			}
+			out = append(out, fmt.Sprintf("f%d:%s;n=%d;cn=%s", st.K, line, c.finRan, r.conn()))
 		}
 	}
 	return strings.Join(out, " | ")
